@@ -1,9 +1,1575 @@
-use crate::check::CompResult;
+//! C12 component engine: configuration-change algebra.
+//!
+//! Joint breadth-first search over pairs (real `ProgressTracker` driven through the real
+//! `Changer` / `restore`, reference `RefConf`) from the empty tracker and from `restore()` of
+//! every valid `ConfState` over the root id universe, under every operation
+//!
+//!   simple(L) | enter_joint(false, L) | enter_joint(true, L) | leave_joint
+//!
+//! with L ranging over *all* change lists of length <= maxlen over
+//! {AddNode, AddLearner, Remove} x ids {0} ∪ universe, until the fixpoint.
+//!
+//! Bounds (see `tier_cfg`): quick = universe {1,2,3,4,9}, lists <= 3 from non-joint and <= 2 from
+//! joint configurations; thorough = that universe with lists <= 3 everywhere, plus a second pass
+//! over {1,2,3,4,5,9} with lists <= 3 from non-joint and <= 2 from joint configurations. Since the
+//! roots are *all* valid configurations over the universe, the search closes at depth 0/1; the
+//! state of a pair is its configuration, progress map and model configuration.
+//!
+//! Checked after every call (see `step`) and on every distinct state (see `state_check`):
+//!  (a) Ok/Err agreement with the reference model,
+//!  (b) on Ok: resulting config == model's, invariants, progress keys == members,
+//!  (c) `simple` alters the incoming voter set by at most one member,
+//!  (d) on Err the tracker is bit-identical,
+//!  (e) restore(to_conf_state(cfg)) on a fresh tracker reproduces cfg and the progress ids,
+//!  (f) every deciding quorum of the old config intersects every deciding quorum of the new one
+//!      (all pairs of subsets of the id universe, real `has_quorum`, cross-checked against the
+//!      definition); not demanded when the old config is the empty bootstrap config, whose only
+//!      documented use is "adding nodes to an empty config for convenience" and in which the
+//!      empty set is a quorum by convention.
+//! Plus a stateless enumeration of `ConfChangeV2::{enter_joint, leave_joint}`.
+//!
+//! The model (`crate::refconf::RefConf`) is not edited here; helpers live in this file.
 
-pub fn run(_tier: &str, _seed: u64, _budget_s: f64, _threads: usize) -> CompResult {
-    super::not_built("confchange")
+use crate::check::CompResult;
+use crate::refconf::{Ch, RefConf};
+use crate::util::{guarded, W};
+use raft::eraftpb::{
+    ConfChangeSingle, ConfChangeTransition, ConfChangeType, ConfChangeV2, ConfState,
+};
+use raft::{Changer, ProgressTracker};
+use serde_json::{json, Value};
+use std::collections::{BTreeMap, BTreeSet, HashMap};
+use std::sync::atomic::{AtomicBool, AtomicUsize, Ordering};
+use std::sync::Mutex;
+use std::time::Instant;
+
+const ENGINE: &str = "confchange";
+const NEXT_IDX: u64 = 5;
+const MAX_INFLIGHT: usize = 2;
+const MAX_KINDS: usize = 5;
+
+/// The id universe of a run: `ids` are the ids that can ever become members (the non-zero ids
+/// of the change alphabet: ordinary ids plus the "unknown" id 9), changes additionally use id 0
+/// (which the algebra must ignore). Subsets of `ids` are numbered by bit mask.
+#[derive(Clone)]
+struct Univ {
+    ids: Vec<u64>,
+    nsub: u64,
+    /// disj[s] = bit set of all subsets t with s ∩ t = ∅
+    disj: Vec<u64>,
 }
 
-pub fn replay(_j: &serde_json::Value) -> i32 {
-    2
+impl Univ {
+    fn new(ids: &[u64]) -> Univ {
+        assert!(ids.len() <= 6 && !ids.contains(&0));
+        let nsub = 1u64 << ids.len();
+        let disj = (0..nsub)
+            .map(|s| (0..nsub).filter(|t| s & t == 0).fold(0u64, |a, t| a | 1 << t))
+            .collect();
+        Univ { ids: ids.to_vec(), nsub, disj }
+    }
+    fn change_ids(&self) -> Vec<u64> {
+        let mut v = vec![0];
+        v.extend(self.ids.iter());
+        v
+    }
+    fn subset(&self, mask: u64) -> BTreeSet<u64> {
+        self.ids
+            .iter()
+            .enumerate()
+            .filter(|(i, _)| mask >> i & 1 == 1)
+            .map(|(_, id)| *id)
+            .collect()
+    }
+}
+
+// ------------------------------------------------------------------------------------------
+// small helpers
+
+fn ch_to_single(c: &Ch) -> ConfChangeSingle {
+    let (ty, id) = match *c {
+        Ch::AddNode(i) => (ConfChangeType::AddNode, i),
+        Ch::AddLearner(i) => (ConfChangeType::AddLearnerNode, i),
+        Ch::Remove(i) => (ConfChangeType::RemoveNode, i),
+    };
+    let mut s = ConfChangeSingle::default();
+    s.node_id = id;
+    s.set_change_type(ty);
+    s
+}
+
+fn ch_str(c: &Ch) -> String {
+    match *c {
+        Ch::AddNode(i) => format!("v{}", i),
+        Ch::AddLearner(i) => format!("l{}", i),
+        Ch::Remove(i) => format!("r{}", i),
+    }
+}
+
+fn parse_ch(s: &str) -> Option<Ch> {
+    let id: u64 = s.get(1..)?.parse().ok()?;
+    match s.as_bytes().first()? {
+        b'v' => Some(Ch::AddNode(id)),
+        b'l' => Some(Ch::AddLearner(id)),
+        b'r' => Some(Ch::Remove(id)),
+        _ => None,
+    }
+}
+
+fn conf_str(c: &RefConf) -> String {
+    let f = |s: &BTreeSet<u64>| s.iter().map(|x| x.to_string()).collect::<Vec<_>>().join(" ");
+    let mut o = format!("voters=({})", f(&c.voters));
+    if !c.outgoing.is_empty() {
+        o += &format!("&&({})", f(&c.outgoing));
+    }
+    if !c.learners.is_empty() {
+        o += &format!(" learners=({})", f(&c.learners));
+    }
+    if !c.learners_next.is_empty() {
+        o += &format!(" learners_next=({})", f(&c.learners_next));
+    }
+    if c.auto_leave {
+        o += " autoleave";
+    }
+    o
+}
+
+fn conf_json(c: &RefConf) -> Value {
+    json!({
+        "voters": c.voters.iter().collect::<Vec<_>>(),
+        "voters_outgoing": c.outgoing.iter().collect::<Vec<_>>(),
+        "learners": c.learners.iter().collect::<Vec<_>>(),
+        "learners_next": c.learners_next.iter().collect::<Vec<_>>(),
+        "auto_leave": c.auto_leave,
+    })
+}
+
+fn conf_from_json(j: &Value) -> Option<RefConf> {
+    let set = |k: &str| -> Option<BTreeSet<u64>> {
+        j.get(k)?.as_array()?.iter().map(|v| v.as_u64()).collect()
+    };
+    Some(RefConf {
+        voters: set("voters")?,
+        outgoing: set("voters_outgoing")?,
+        learners: set("learners")?,
+        learners_next: set("learners_next")?,
+        auto_leave: j.get("auto_leave")?.as_bool()?,
+    })
+}
+
+/// The configuration the real tracker reports, read through `to_conf_state` (the only public
+/// way to see both halves), as plain sets.
+fn impl_conf(t: &ProgressTracker) -> RefConf {
+    RefConf::from_cs(&t.conf().to_conf_state())
+}
+
+fn prog_ids(t: &ProgressTracker) -> BTreeSet<u64> {
+    t.iter().map(|(id, _)| *id).collect()
+}
+
+/// Bit-identity of two trackers as far as the public API can see: configuration, progress ids,
+/// every `Progress` (PartialEq over all fields incl. inflights), votes, group-commit flag.
+fn tracker_diff(a: &ProgressTracker, b: &ProgressTracker) -> Option<String> {
+    // fast path without allocation
+    if a.conf() == b.conf()
+        && a.iter().len() == b.iter().len()
+        && a.iter().all(|(id, p)| b.get(*id) == Some(p))
+        && a.votes() == b.votes()
+        && a.group_commit() == b.group_commit()
+    {
+        return None;
+    }
+    if a.conf() != b.conf() {
+        return Some(format!("conf {} vs {}", conf_str(&impl_conf(a)), conf_str(&impl_conf(b))));
+    }
+    let (ia, ib) = (prog_ids(a), prog_ids(b));
+    if ia != ib {
+        return Some(format!("progress ids {:?} vs {:?}", ia, ib));
+    }
+    for id in &ia {
+        if a.get(*id) != b.get(*id) {
+            return Some(format!("progress of {} differs: {:?} vs {:?}", id, a.get(*id), b.get(*id)));
+        }
+    }
+    if a.votes() != b.votes() {
+        return Some("votes differ".into());
+    }
+    if a.group_commit() != b.group_commit() {
+        return Some("group_commit differs".into());
+    }
+    None
+}
+
+/// Canonical key of a pair (implementation, model).
+fn pair_key(t: &ProgressTracker, m: &RefConf) -> u128 {
+    let mut w = W::default();
+    w.cs(&t.conf().to_conf_state());
+    let ids = prog_ids(t);
+    w.us(ids.len());
+    for id in &ids {
+        let p = t.get(*id).unwrap();
+        w.u64(*id);
+        w.u64(p.matched);
+        w.u64(p.next_idx);
+        w.u8(p.state as u8);
+        w.b(p.paused);
+        w.u64(p.pending_snapshot);
+        w.u64(p.pending_request_snapshot);
+        w.b(p.recent_active);
+        w.us(p.ins.count());
+        w.u64(p.commit_group_id);
+        w.u64(p.committed_index);
+    }
+    w.us(t.votes().len());
+    w.b(t.group_commit());
+    w.u8(0xee);
+    w.cs(&m.to_cs());
+    w.key()
+}
+
+/// The real `has_quorum` evaluated on all subsets of the id universe (bit s of the result is
+/// set iff subset number s is a deciding quorum). The set type is crate-private in raft-rs, it
+/// is inferred from the call.
+fn real_qmask(u: &Univ, t: &ProgressTracker) -> Result<u64, (String, String)> {
+    guarded(|| {
+        let mut m = 0u64;
+        for s in 0..u.nsub {
+            let mut set = std::collections::HashSet::default();
+            for (i, id) in u.ids.iter().enumerate() {
+                if s >> i & 1 == 1 {
+                    set.insert(*id);
+                }
+            }
+            if t.has_quorum(&set) {
+                m |= 1 << s;
+            }
+        }
+        m
+    })
+}
+
+fn model_qmask(u: &Univ, c: &RefConf) -> u64 {
+    let mut m = 0u64;
+    for s in 0..u.nsub {
+        if c.is_quorum(&u.subset(s)) {
+            m |= 1 << s;
+        }
+    }
+    m
+}
+
+/// The C12 invariants, written out independently of `RefConf::invariants` (both are evaluated).
+fn invariant_kind(c: &RefConf, pids: &BTreeSet<u64>) -> Option<(&'static str, String)> {
+    for l in &c.learners {
+        if c.voters.contains(l) {
+            return Some(("invariant-learner-is-incoming-voter", format!("{} in learners and voters", l)));
+        }
+        if c.outgoing.contains(l) {
+            return Some(("invariant-learner-is-outgoing-voter", format!("{} in learners and voters_outgoing", l)));
+        }
+    }
+    for l in &c.learners_next {
+        if !c.outgoing.contains(l) {
+            return Some(("invariant-staged-learner-not-outgoing", format!("{} in learners_next but not in voters_outgoing", l)));
+        }
+    }
+    if c.voters.is_empty() {
+        return Some(("invariant-no-voter", "incoming voter set is empty".into()));
+    }
+    if c.outgoing.is_empty() {
+        if !c.learners_next.is_empty() {
+            return Some(("invariant-nonjoint-has-learners-next", format!("learners_next={:?}", c.learners_next)));
+        }
+        if c.auto_leave {
+            return Some(("invariant-nonjoint-has-auto-leave", "auto_leave set".into()));
+        }
+    }
+    let members = c.members();
+    if *pids != members {
+        return Some(("progress-keys-differ-from-members", format!("progress ids {:?}, members {:?}", pids, members)));
+    }
+    None
+}
+
+#[derive(Clone, Copy, PartialEq, Eq, Debug)]
+enum EK {
+    SimpleInJoint,
+    MoreThanOneVoter,
+    RemovedAllVoters,
+    AlreadyJoint,
+    ZeroVoterJoint,
+    NotJoint,
+    Other,
+}
+
+fn impl_err_kind(e: &raft::Error) -> EK {
+    let s = match e {
+        raft::Error::ConfChangeError(s) => s.as_str(),
+        _ => return EK::Other,
+    };
+    match s {
+        "can't apply simple config change in joint config" => EK::SimpleInJoint,
+        "more than one voter changed without entering joint config" => EK::MoreThanOneVoter,
+        "removed all voters" => EK::RemovedAllVoters,
+        "config is already joint" => EK::AlreadyJoint,
+        "can't make a zero-voter config joint" => EK::ZeroVoterJoint,
+        "can't leave a non-joint config" => EK::NotJoint,
+        _ => EK::Other,
+    }
+}
+
+fn model_err_kind(s: &str) -> EK {
+    match s {
+        "simple in joint" => EK::SimpleInJoint,
+        "more than one voter changed" => EK::MoreThanOneVoter,
+        "removed all voters" => EK::RemovedAllVoters,
+        "already joint" => EK::AlreadyJoint,
+        "zero-voter config" => EK::ZeroVoterJoint,
+        "not joint" => EK::NotJoint,
+        _ => EK::Other,
+    }
+}
+
+// ------------------------------------------------------------------------------------------
+// statistics
+
+macro_rules! stat_names {
+    ($($n:ident),* $(,)?) => {
+        #[allow(non_camel_case_types, dead_code)]
+        #[derive(Clone, Copy)]
+        enum S { $($n),* }
+        const STAT_NAMES: &[&str] = &[$(stringify!($n)),*];
+    };
+}
+stat_names!(
+    ok_simple,
+    ok_enter_joint,
+    ok_leave_joint,
+    err_simple_in_joint,
+    err_more_than_one_voter,
+    err_removed_all_voters,
+    err_already_joint,
+    err_zero_voter_joint,
+    err_not_joint,
+    err_other_invariant,
+    err_kind_differs_from_model,
+    err_atomicity_checked,
+    simple_voter_delta_0,
+    simple_voter_delta_1,
+    quorum_steps_checked,
+    quorum_pairs_checked,
+    quorum_skipped_old_config_empty,
+    has_quorum_evaluations,
+    restores_checked,
+    states_joint,
+    states_learners_next_nonempty,
+    states_auto_leave,
+    states_with_learners,
+    states_empty_config,
+    id0_changes_in_ok_lists,
+    unknown_id_became_member,
+    progress_reset_in_one_list,
+    classification_cases,
+    classification_enter_joint_some,
+    classification_leave_joint_true,
+    refconf_apply_v2_mismatch,
+    qmask_memo_hits,
+    subset_pairs_examined,
+);
+const NSTAT: usize = 33;
+
+#[derive(Clone)]
+struct Stats([u64; NSTAT]);
+
+impl Stats {
+    fn new() -> Stats {
+        assert_eq!(STAT_NAMES.len(), NSTAT);
+        Stats([0; NSTAT])
+    }
+    #[inline]
+    fn add(&mut self, s: S, n: u64) {
+        self.0[s as usize] += n;
+    }
+    fn get(&self, name: &str) -> u64 {
+        self.0[STAT_NAMES.iter().position(|x| *x == name).expect("stat name")]
+    }
+    fn merge(&mut self, o: &Stats) {
+        for i in 0..self.0.len() {
+            self.0[i] += o.0[i];
+        }
+    }
+}
+
+/// Per-thread context.
+struct Cx {
+    u: Univ,
+    st: Stats,
+    /// real has_quorum masks memoised per configuration (has_quorum reads `conf.voters` only)
+    qmemo: HashMap<RefConf, u64>,
+}
+
+impl Cx {
+    fn new(u: &Univ) -> Cx {
+        Cx { u: u.clone(), st: Stats::new(), qmemo: HashMap::new() }
+    }
+    fn qmask(&mut self, t: &ProgressTracker, ic: &RefConf) -> Result<u64, (String, String)> {
+        if let Some(m) = self.qmemo.get(ic) {
+            self.st.add(S::qmask_memo_hits, 1);
+            return Ok(*m);
+        }
+        let m = real_qmask(&self.u, t)?;
+        self.st.add(S::has_quorum_evaluations, self.u.nsub);
+        self.qmemo.insert(ic.clone(), m);
+        Ok(m)
+    }
+}
+
+type Viol = (String, String);
+
+// ------------------------------------------------------------------------------------------
+// operations
+
+#[derive(Clone, Debug, PartialEq)]
+enum Op {
+    Simple(Vec<Ch>),
+    Enter(bool, Vec<Ch>),
+    Leave,
+}
+
+impl Op {
+    fn to_json(&self) -> Value {
+        match self {
+            Op::Simple(l) => json!({"op": "simple", "changes": l.iter().map(ch_str).collect::<Vec<_>>()}),
+            Op::Enter(a, l) => json!({"op": "enter_joint", "auto_leave": a, "changes": l.iter().map(ch_str).collect::<Vec<_>>()}),
+            Op::Leave => json!({"op": "leave_joint"}),
+        }
+    }
+    fn from_json(j: &Value) -> Option<Op> {
+        let list = || -> Option<Vec<Ch>> {
+            j.get("changes")?.as_array()?.iter().map(|v| v.as_str().and_then(parse_ch)).collect()
+        };
+        match j.get("op")?.as_str()? {
+            "simple" => Some(Op::Simple(list()?)),
+            "enter_joint" => Some(Op::Enter(j.get("auto_leave")?.as_bool()?, list()?)),
+            "leave_joint" => Some(Op::Leave),
+            _ => None,
+        }
+    }
+}
+
+struct OpTable {
+    lists: Vec<Vec<Ch>>,
+    ccs: Vec<Vec<ConfChangeSingle>>,
+    ops: Vec<Op>,
+}
+
+impl OpTable {
+    fn new(u: &Univ, maxlen: usize) -> OpTable {
+        let mut singles = vec![];
+        for id in u.change_ids() {
+            singles.push(Ch::AddNode(id));
+            singles.push(Ch::AddLearner(id));
+            singles.push(Ch::Remove(id));
+        }
+        let mut lists: Vec<Vec<Ch>> = vec![vec![]];
+        let mut lo = 0;
+        for _ in 0..maxlen {
+            let hi = lists.len();
+            for i in lo..hi {
+                for s in &singles {
+                    let mut l = lists[i].clone();
+                    l.push(*s);
+                    lists.push(l);
+                }
+            }
+            lo = hi;
+        }
+        let ccs = lists.iter().map(|l| l.iter().map(ch_to_single).collect()).collect();
+        let mut ops = vec![Op::Leave];
+        for l in &lists {
+            ops.push(Op::Simple(l.clone()));
+            ops.push(Op::Enter(false, l.clone()));
+            ops.push(Op::Enter(true, l.clone()));
+        }
+        OpTable { lists, ccs, ops }
+    }
+    /// op 0 = leave_joint; then simple(L), enter_joint(false, L), enter_joint(true, L) per list
+    /// number of operations using lists of length <= maxlen (lists are ordered by length)
+    fn n_ops(&self, maxlen: usize) -> usize {
+        1 + 3 * self.lists.iter().filter(|l| l.len() <= maxlen).count()
+    }
+    fn op(&self, i: usize) -> &Op {
+        &self.ops[i]
+    }
+    fn ccs(&self, i: usize) -> &[ConfChangeSingle] {
+        if i == 0 {
+            &[]
+        } else {
+            &self.ccs[(i - 1) / 3]
+        }
+    }
+}
+
+struct StepOut {
+    viols: Vec<Viol>,
+    next: Option<(ProgressTracker, RefConf)>,
+}
+
+/// Executes one operation on the real code and on the model and evaluates (a)-(d),(f).
+/// `snap` is a clone of `tr` taken before the call.
+fn step(cx: &mut Cx, tr: &ProgressTracker, snap: &ProgressTracker, old: &RefConf, model: &RefConf, op: &Op, ccs: &[ConfChangeSingle]) -> StepOut {
+    let mut viols: Vec<Viol> = vec![];
+    let (opname, mr) = match op {
+        Op::Simple(l) => ("simple", model.simple(l)),
+        Op::Enter(a, l) => ("enter_joint", model.enter_joint(*a, l)),
+        Op::Leave => ("leave_joint", model.leave_joint()),
+    };
+    let r = guarded(|| {
+        let mut c = Changer::new(tr);
+        match op {
+            Op::Simple(_) => c.simple(ccs),
+            Op::Enter(a, _) => c.enter_joint(*a, ccs),
+            Op::Leave => c.leave_joint(),
+        }
+    });
+    let r = match r {
+        Ok(r) => r,
+        Err((msg, loc)) => {
+            viols.push((format!("panic-in-{}", opname), format!("panic `{}` at {}", msg, loc)));
+            return StepOut { viols, next: None };
+        }
+    };
+    match r {
+        Err(e) => {
+            let ek = impl_err_kind(&e);
+            cx.st.add(
+                match ek {
+                    EK::SimpleInJoint => S::err_simple_in_joint,
+                    EK::MoreThanOneVoter => S::err_more_than_one_voter,
+                    EK::RemovedAllVoters => S::err_removed_all_voters,
+                    EK::AlreadyJoint => S::err_already_joint,
+                    EK::ZeroVoterJoint => S::err_zero_voter_joint,
+                    EK::NotJoint => S::err_not_joint,
+                    EK::Other => S::err_other_invariant,
+                },
+                1,
+            );
+            // (d) a rejected change leaves everything untouched
+            cx.st.add(S::err_atomicity_checked, 1);
+            if let Some(d) = tracker_diff(tr, snap) {
+                viols.push((format!("rejected-{}-modified-tracker", opname), format!("{} returned Err({}) but the tracker changed: {}", opname, e, d)));
+            }
+            match &mr {
+                Ok(m2) => {
+                    // (a) the model accepts: raft-rs rejects a change the algebra allows
+                    let why = if ek == EK::Other { "an internal invariant check" } else { "a documented rejection rule that does not apply here" };
+                    viols.push((
+                        format!("{}-rejected-but-model-accepts", opname),
+                        format!(
+                            "{} on {} returned Err(\"{}\") ({}), the reference algebra accepts it and yields {}",
+                            opname, conf_str(old), e, why, conf_str(m2)
+                        ),
+                    ));
+                }
+                Err(me) => {
+                    if model_err_kind(me) != ek {
+                        cx.st.add(S::err_kind_differs_from_model, 1);
+                    }
+                }
+            }
+            StepOut { viols, next: None }
+        }
+        Ok((cfg, changes)) => {
+            cx.st.add(
+                match op {
+                    Op::Simple(_) => S::ok_simple,
+                    Op::Enter(..) => S::ok_enter_joint,
+                    Op::Leave => S::ok_leave_joint,
+                },
+                1,
+            );
+            let mut new = tr.clone();
+            if let Err((msg, loc)) = guarded(|| new.apply_conf(cfg, changes, NEXT_IDX)) {
+                viols.push(("panic-in-apply_conf".into(), format!("panic `{}` at {}", msg, loc)));
+                return StepOut { viols, next: None };
+            }
+            let ic = impl_conf(&new);
+            let pids = prog_ids(&new);
+            // (a)/(b) agreement with the model
+            match &mr {
+                Err(me) => viols.push((
+                    format!("{}-accepted-but-model-rejects", opname),
+                    format!("{} on {} returned Ok({}), the reference algebra rejects it: {}", opname, conf_str(old), conf_str(&ic), me),
+                )),
+                Ok(m2) => {
+                    if ic != *m2 {
+                        viols.push((
+                            format!("{}-config-differs-from-model", opname),
+                            format!("{} on {}: raft-rs yields {}, the reference algebra {}", opname, conf_str(old), conf_str(&ic), conf_str(m2)),
+                        ));
+                    }
+                }
+            }
+            // (b) invariants + progress keys
+            if let Some((k, d)) = invariant_kind(&ic, &pids) {
+                viols.push((k.to_string(), format!("after {} on {}: {} (config {})", opname, conf_str(old), d, conf_str(&ic))));
+            } else if let Err(d) = ic.invariants() {
+                viols.push(("invariant-refconf".into(), format!("after {} on {}: {} (config {})", opname, conf_str(old), d, conf_str(&ic))));
+            }
+            // (c) simple alters the incoming voters by at most one member
+            if let Op::Simple(_) = op {
+                let delta = ic.voters.symmetric_difference(&old.voters).count();
+                match delta {
+                    0 => cx.st.add(S::simple_voter_delta_0, 1),
+                    1 => cx.st.add(S::simple_voter_delta_1, 1),
+                    _ => viols.push((
+                        "simple-changed-more-than-one-voter".into(),
+                        format!("simple on {} produced {}: {} voters differ", conf_str(old), conf_str(&ic), delta),
+                    )),
+                }
+            }
+            // (f) quorum intersection old/new
+            if old.voters.is_empty() && old.outgoing.is_empty() {
+                cx.st.add(S::quorum_skipped_old_config_empty, 1);
+            } else {
+                match (cx.qmask(snap, old), cx.qmask(&new, &ic)) {
+                    (Ok(qo), Ok(qn)) => {
+                        cx.st.add(S::quorum_steps_checked, 1);
+                        cx.st.add(S::quorum_pairs_checked, (qo.count_ones() as u64) * (qn.count_ones() as u64));
+                        cx.st.add(S::subset_pairs_examined, cx.u.nsub * cx.u.nsub);
+                        // all pairs (s, t): s quorum of old, t quorum of new => s ∩ t != ∅
+                        for s in 0..cx.u.nsub {
+                            if qo >> s & 1 == 0 || qn & cx.u.disj[s as usize] == 0 {
+                                continue;
+                            }
+                            let t = (qn & cx.u.disj[s as usize]).trailing_zeros() as u64;
+                            viols.push((
+                                format!("quorum-non-intersection-after-{}", opname),
+                                format!(
+                                    "{:?} is a deciding quorum of {} and {:?} is a deciding quorum of {} (per has_quorum), they are disjoint",
+                                    cx.u.subset(s), conf_str(old), cx.u.subset(t), conf_str(&ic)
+                                ),
+                            ));
+                            break;
+                        }
+                    }
+                    (Err((m, l)), _) | (_, Err((m, l))) => {
+                        viols.push(("panic-in-has_quorum".into(), format!("panic `{}` at {}", m, l)));
+                    }
+                }
+            }
+            // (e) restore(to_conf_state(cfg)) on a fresh tracker reproduces cfg and the progress ids
+            // (checked for every successful call: the id order inside the ConfState is the hash
+            // order of this particular tracker)
+            if viols.is_empty() {
+                let cs = new.conf().to_conf_state();
+                viols.extend(restore_check(cx, &cs, &new, "restore-roundtrip"));
+            }
+            // non-vacuity of the alphabet
+            if let Op::Simple(l) | Op::Enter(_, l) = op {
+                if l.iter().any(|c| matches!(c, Ch::AddNode(0) | Ch::AddLearner(0) | Ch::Remove(0))) {
+                    cx.st.add(S::id0_changes_in_ok_lists, 1);
+                }
+                if pids.contains(&9) && !prog_ids(snap).contains(&9) {
+                    cx.st.add(S::unknown_id_became_member, 1);
+                }
+                for (i, c) in l.iter().enumerate() {
+                    if let Ch::Remove(x) = c {
+                        if *x != 0 && l[i + 1..].iter().any(|d| matches!(d, Ch::AddNode(y) | Ch::AddLearner(y) if y == x)) {
+                            cx.st.add(S::progress_reset_in_one_list, 1);
+                            break;
+                        }
+                    }
+                }
+            }
+            if viols.is_empty() {
+                let m2 = mr.unwrap();
+                StepOut { viols, next: Some((new, m2)) }
+            } else {
+                StepOut { viols, next: None }
+            }
+        }
+    }
+}
+
+/// Per-state checks: observers against the model, has_quorum against the definition,
+/// (e) restore round-trip.
+fn state_check(cx: &mut Cx, tr: &ProgressTracker, model: &RefConf) -> Vec<Viol> {
+    let mut viols = vec![];
+    let ic = impl_conf(tr);
+    let pids = prog_ids(tr);
+    let empty = ic == RefConf::default();
+    if ic != *model {
+        viols.push(("state-config-differs-from-model".into(), format!("raft-rs {}, model {}", conf_str(&ic), conf_str(model))));
+    }
+    if !empty {
+        if let Some((k, d)) = invariant_kind(&ic, &pids) {
+            viols.push((k.to_string(), format!("{} (config {})", d, conf_str(&ic))));
+        } else if let Err(d) = ic.invariants() {
+            viols.push(("invariant-refconf".into(), format!("{} (config {})", d, conf_str(&ic))));
+        }
+    } else if !pids.is_empty() {
+        viols.push(("progress-keys-differ-from-members".into(), format!("empty config tracks {:?}", pids)));
+    }
+    // getters agree with to_conf_state
+    let c = tr.conf();
+    let l: BTreeSet<u64> = c.learners().iter().cloned().collect();
+    let ln: BTreeSet<u64> = c.learners_next().iter().cloned().collect();
+    let mut bad_getter = l != ic.learners || ln != ic.learners_next || *c.auto_leave() != ic.auto_leave;
+    for id in cx.u.change_ids() {
+        if c.voters().contains(id) != ic.is_voter(id) {
+            bad_getter = true;
+        }
+    }
+    if bad_getter {
+        viols.push(("conf-getters-disagree-with-conf-state".into(), format!("config {}", conf_str(&ic))));
+    }
+    // has_quorum against the definition (majority of each non-empty half)
+    match cx.qmask(tr, &ic) {
+        Ok(q) => {
+            let mq = model_qmask(&cx.u, model);
+            if q != mq {
+                let s = (0..cx.u.nsub).find(|s| (q >> s & 1) != (mq >> s & 1)).unwrap();
+                viols.push((
+                    "has_quorum-differs-from-definition".into(),
+                    format!("has_quorum({:?}) = {} on {}, definition says {}", cx.u.subset(s), q >> s & 1 == 1, conf_str(&ic), mq >> s & 1 == 1),
+                ));
+            }
+        }
+        Err((m, l)) => viols.push(("panic-in-has_quorum".into(), format!("panic `{}` at {}", m, l))),
+    }
+    // statistics
+    if !ic.outgoing.is_empty() {
+        cx.st.add(S::states_joint, 1);
+    }
+    if !ic.learners_next.is_empty() {
+        cx.st.add(S::states_learners_next_nonempty, 1);
+    }
+    if ic.auto_leave {
+        cx.st.add(S::states_auto_leave, 1);
+    }
+    if !ic.learners.is_empty() {
+        cx.st.add(S::states_with_learners, 1);
+    }
+    if empty {
+        cx.st.add(S::states_empty_config, 1);
+    }
+    // (e) restore(to_conf_state(cfg)) on a fresh tracker reproduces cfg and the progress ids
+    let cs = tr.conf().to_conf_state();
+    viols.extend(restore_check(cx, &cs, tr, "restore-roundtrip"));
+    viols
+}
+
+/// restore(cs) on a fresh tracker must succeed and yield exactly `want`'s configuration and
+/// progress ids.
+fn restore_check(cx: &mut Cx, cs: &ConfState, want: &ProgressTracker, prefix: &str) -> Vec<Viol> {
+    let mut viols = vec![];
+    cx.st.add(S::restores_checked, 1);
+    let mut fresh = ProgressTracker::new(MAX_INFLIGHT);
+    match guarded(|| raft::verif::restore(&mut fresh, NEXT_IDX, cs)) {
+        Err((m, l)) => viols.push(("panic-in-restore".into(), format!("panic `{}` at {}", m, l))),
+        Ok(Err(e)) => viols.push((
+            format!("{}-rejected", prefix),
+            format!("restore of {} failed: {}", conf_str(&RefConf::from_cs(cs)), e),
+        )),
+        Ok(Ok(())) => {
+            if fresh.conf() != want.conf() || impl_conf(&fresh) != impl_conf(want) {
+                viols.push((
+                    format!("{}-config-differs", prefix),
+                    format!("restore of {} produced {}", conf_str(&RefConf::from_cs(cs)), conf_str(&impl_conf(&fresh))),
+                ));
+            }
+            if prog_ids(&fresh) != prog_ids(want) {
+                viols.push((
+                    format!("{}-progress-ids-differ", prefix),
+                    format!("restore of {} tracks {:?}, expected {:?}", conf_str(&RefConf::from_cs(cs)), prog_ids(&fresh), prog_ids(want)),
+                ));
+            }
+        }
+    }
+    viols
+}
+
+/// Builds a root pair: `None` = the empty tracker, `Some(c)` = restore(ConfState of c) on a fresh
+/// tracker (ids listed in the order `perm` induces). The model is `c` itself.
+fn build_root(cx: &mut Cx, root: &Option<RefConf>, rot: usize) -> Result<(ProgressTracker, RefConf), Vec<Viol>> {
+    let mut t = ProgressTracker::new(MAX_INFLIGHT);
+    let Some(c) = root else {
+        return Ok((t, RefConf::default()));
+    };
+    let mut cs = c.to_cs();
+    // seed: rotate the order in which ids are listed (set semantics must not depend on it)
+    let rotv = |v: &mut Vec<u64>| {
+        if !v.is_empty() {
+            let k = rot % v.len();
+            v.rotate_left(k);
+        }
+    };
+    rotv(cs.mut_voters());
+    rotv(cs.mut_voters_outgoing());
+    rotv(cs.mut_learners());
+    rotv(cs.mut_learners_next());
+    cx.st.add(S::restores_checked, 1);
+    match guarded(|| raft::verif::restore(&mut t, NEXT_IDX, &cs)) {
+        Err((m, l)) => return Err(vec![("panic-in-restore".into(), format!("panic `{}` at {}", m, l))]),
+        Ok(Err(e)) => {
+            return Err(vec![(
+                "restore-of-valid-confstate-rejected".into(),
+                format!("restore of {} failed: {}", conf_str(c), e),
+            )])
+        }
+        Ok(Ok(())) => {}
+    }
+    let ic = impl_conf(&t);
+    if ic != *c {
+        return Err(vec![(
+            "restore-of-valid-confstate-config-differs".into(),
+            format!("restore of {} produced {}", conf_str(c), conf_str(&ic)),
+        )]);
+    }
+    Ok((t, c.clone()))
+}
+
+/// All valid configurations over `ids`: every id is absent / incoming voter only / outgoing voter
+/// only / voter in both halves / learner / outgoing voter staged as learner; at least one
+/// incoming voter; non-joint configs have no staged learners and no auto_leave.
+fn valid_configs(ids: &[u64]) -> Vec<RefConf> {
+    let mut out = vec![];
+    let n = ids.len();
+    let total = 6usize.pow(n as u32);
+    for code in 0..total {
+        let mut c = RefConf::default();
+        let mut x = code;
+        for id in ids {
+            match x % 6 {
+                0 => {}
+                1 => {
+                    c.voters.insert(*id);
+                }
+                2 => {
+                    c.outgoing.insert(*id);
+                }
+                3 => {
+                    c.voters.insert(*id);
+                    c.outgoing.insert(*id);
+                }
+                4 => {
+                    c.learners.insert(*id);
+                }
+                _ => {
+                    c.outgoing.insert(*id);
+                    c.learners_next.insert(*id);
+                }
+            }
+            x /= 6;
+        }
+        if c.voters.is_empty() {
+            continue;
+        }
+        if c.outgoing.is_empty() {
+            out.push(c);
+        } else {
+            let mut d = c.clone();
+            d.auto_leave = true;
+            out.push(c);
+            out.push(d);
+        }
+    }
+    out.sort();
+    out.dedup();
+    out
+}
+
+// ------------------------------------------------------------------------------------------
+// ConfChangeV2 classification (stateless)
+
+fn tr_name(t: ConfChangeTransition) -> &'static str {
+    match t {
+        ConfChangeTransition::Auto => "Auto",
+        ConfChangeTransition::Implicit => "Implicit",
+        ConfChangeTransition::Explicit => "Explicit",
+    }
+}
+
+fn tr_from(s: &str) -> Option<ConfChangeTransition> {
+    match s {
+        "Auto" => Some(ConfChangeTransition::Auto),
+        "Implicit" => Some(ConfChangeTransition::Implicit),
+        "Explicit" => Some(ConfChangeTransition::Explicit),
+        _ => None,
+    }
+}
+
+/// The documented rule (proto/src/confchange.rs, doc comments): joint consensus is used iff the
+/// change contains more than one change or joint consensus was requested explicitly (transition
+/// != Auto); the joint state is left automatically unless the transition is Explicit. A change
+/// leaves the joint state iff it is zero apart from the context.
+fn classify_expected(t: ConfChangeTransition, n: usize) -> (Option<bool>, bool) {
+    let enter = match t {
+        ConfChangeTransition::Explicit => Some(false),
+        ConfChangeTransition::Implicit => Some(true),
+        ConfChangeTransition::Auto => {
+            if n > 1 {
+                Some(true)
+            } else {
+                None
+            }
+        }
+    };
+    (enter, t == ConfChangeTransition::Auto && n == 0)
+}
+
+fn classify_one(st: &mut Stats, t: ConfChangeTransition, l: &[Ch], ctx: bool) -> Vec<Viol> {
+    let mut viols = vec![];
+    let mut cc = ConfChangeV2::default();
+    cc.set_transition(t);
+    cc.set_changes(l.iter().map(ch_to_single).collect::<Vec<_>>().into());
+    if ctx {
+        cc.set_context(vec![1u8, 2, 3].into());
+    }
+    let got = guarded(|| (cc.enter_joint(), cc.leave_joint()));
+    let (ge, gl) = match got {
+        Ok(x) => x,
+        Err((m, loc)) => {
+            viols.push(("panic-in-confchangev2-classification".into(), format!("panic `{}` at {}", m, loc)));
+            return viols;
+        }
+    };
+    st.add(S::classification_cases, 1);
+    if ge.is_some() {
+        st.add(S::classification_enter_joint_some, 1);
+    }
+    if gl {
+        st.add(S::classification_leave_joint_true, 1);
+    }
+    let (ee, el) = classify_expected(t, l.len());
+    if ge != ee {
+        viols.push((
+            "confchangev2-enter_joint-misclassified".into(),
+            format!("transition {} with {} change(s): enter_joint() = {:?}, documented rule gives {:?}", tr_name(t), l.len(), ge, ee),
+        ));
+    }
+    if gl != el {
+        viols.push((
+            "confchangev2-leave_joint-misclassified".into(),
+            format!("transition {} with {} change(s): leave_joint() = {}, documented rule gives {}", tr_name(t), l.len(), gl, el),
+        ));
+    }
+    if ge.is_some() && gl {
+        viols.push((
+            "confchangev2-both-enter-and-leave".into(),
+            format!("transition {} with {} change(s) classified as both entering and leaving", tr_name(t), l.len()),
+        ));
+    }
+    // self-check of the model's dispatcher (used by the C09 monitor): not a raft-rs verdict
+    for base in [
+        RefConf { voters: [1, 2, 3].into(), ..Default::default() },
+        RefConf { voters: [1, 2].into(), outgoing: [1, 2, 3].into(), learners_next: [3].into(), auto_leave: true, ..Default::default() },
+    ] {
+        let want = if el {
+            base.leave_joint()
+        } else if let Some(a) = ee {
+            base.enter_joint(a, l)
+        } else {
+            base.simple(l)
+        };
+        if base.apply_v2(&cc) != want {
+            st.add(S::refconf_apply_v2_mismatch, 1);
+        }
+    }
+    viols
+}
+
+fn classify_ops(t: ConfChangeTransition, l: &[Ch], ctx: bool) -> Value {
+    json!({"classify": {"transition": tr_name(t), "changes": l.iter().map(ch_str).collect::<Vec<_>>(), "context": ctx}})
+}
+
+// ------------------------------------------------------------------------------------------
+// exploration
+
+struct Node {
+    tr: ProgressTracker,
+    model: RefConf,
+    /// u32::MAX for a root (then `op` is the root index)
+    parent: u32,
+    op: u32,
+    depth: u32,
+    key: u128,
+}
+
+struct Found {
+    depth: u32,
+    parent: u32,
+    op: u32,
+    detail: String,
+    ops: Value,
+}
+
+/// One exploration pass: a universe of non-zero ids (root configurations = every valid
+/// configuration over it plus the empty one; change ids = the universe plus 0) and the maximal
+/// change-list length tried from non-joint / from joint configurations.
+#[derive(Clone)]
+struct Pass {
+    univ: Vec<u64>,
+    maxlen_nonjoint: usize,
+    maxlen_joint: usize,
+}
+
+struct Tier {
+    passes: Vec<Pass>,
+    classify_len: usize,
+    state_cap: usize,
+}
+
+fn tier_cfg(tier: &str) -> Tier {
+    if tier == "thorough" {
+        Tier {
+            passes: vec![
+                Pass { univ: vec![1, 2, 3, 4, 9], maxlen_nonjoint: 3, maxlen_joint: 3 },
+                Pass { univ: vec![1, 2, 3, 4, 5, 9], maxlen_nonjoint: 3, maxlen_joint: 2 },
+            ],
+            classify_len: 3,
+            state_cap: 4_000_000,
+        }
+    } else {
+        Tier {
+            passes: vec![Pass { univ: vec![1, 2, 3, 4, 9], maxlen_nonjoint: 3, maxlen_joint: 2 }],
+            classify_len: 2,
+            state_cap: 4_000_000,
+        }
+    }
+}
+
+fn xorshift(x: &mut u64) -> u64 {
+    *x ^= *x << 13;
+    *x ^= *x >> 7;
+    *x ^= *x << 17;
+    *x
+}
+
+fn shuffle<T>(v: &mut [T], seed: u64) {
+    if seed == 0 {
+        return;
+    }
+    let mut x = seed.wrapping_mul(0x9e3779b97f4a7c15) | 1;
+    for i in (1..v.len()).rev() {
+        let j = (xorshift(&mut x) % (i as u64 + 1)) as usize;
+        v.swap(i, j);
+    }
+}
+
+fn path_json(u: &Univ, nodes: &[Node], roots: &[Option<RefConf>], table: &OpTable, mut at: u32, last: Option<u32>, rot: usize) -> Value {
+    let mut steps = vec![];
+    if let Some(op) = last {
+        steps.push(table.op(op as usize).to_json());
+    }
+    loop {
+        let n = &nodes[at as usize];
+        if n.parent == u32::MAX {
+            steps.reverse();
+            let root = match &roots[n.op as usize] {
+                None => Value::Null,
+                Some(c) => conf_json(c),
+            };
+            return json!({"universe": u.ids, "root": root, "rot": rot, "steps": steps});
+        }
+        steps.push(table.op(n.op as usize).to_json());
+        at = n.parent;
+    }
+}
+
+fn record(found: &Mutex<BTreeMap<String, Found>>, kind: String, f: Found) {
+    let mut g = found.lock().unwrap();
+    match g.get(&kind) {
+        Some(o) if (o.depth, o.parent, o.op) <= (f.depth, f.parent, f.op) => {}
+        _ => {
+            g.insert(kind, f);
+        }
+    }
+}
+
+struct PassResult {
+    states: u64,
+    transitions: u64,
+    validated: u64,
+    cap_hit: Option<String>,
+    samples: Vec<Value>,
+    stats: Stats,
+    info: Value,
+}
+
+#[allow(clippy::too_many_arguments)]
+fn run_pass(pass: &Pass, state_cap: usize, seed: u64, t0: Instant, budget_s: f64, threads: usize, found: &Mutex<BTreeMap<String, Found>>) -> PassResult {
+    let u = Univ::new(&pass.univ);
+    let table = OpTable::new(&u, pass.maxlen_nonjoint.max(pass.maxlen_joint));
+    let rot = (seed % 7) as usize;
+    let mut stats = Stats::new();
+    let mut cap_hit: Option<String> = None;
+    let mut transitions: u64 = 0;
+
+    // ---- roots
+    let mut roots: Vec<Option<RefConf>> = vec![None];
+    roots.extend(valid_configs(&pass.univ).into_iter().map(Some));
+    shuffle(&mut roots[1..], seed);
+    let mut nodes: Vec<Node> = vec![];
+    let mut seen: HashMap<u128, u32> = HashMap::new();
+    let mut frontier: Vec<u32> = vec![];
+    let mut mcx = Cx::new(&u);
+    for (ri, r) in roots.iter().enumerate() {
+        transitions += 1;
+        let ops = json!({"universe": u.ids, "root": r.as_ref().map(conf_json).unwrap_or(Value::Null), "rot": rot, "steps": []});
+        match build_root(&mut mcx, r, rot) {
+            Err(vs) => {
+                for (k, d) in vs {
+                    record(found, k, Found { depth: 0, parent: 0, op: ri as u32, detail: d, ops: ops.clone() });
+                }
+            }
+            Ok((t, m)) => {
+                let key = pair_key(&t, &m);
+                if seen.contains_key(&key) {
+                    continue;
+                }
+                let vs = state_check(&mut mcx, &t, &m);
+                if !vs.is_empty() {
+                    for (k, d) in vs {
+                        record(found, k, Found { depth: 0, parent: 0, op: ri as u32, detail: d, ops: ops.clone() });
+                    }
+                    continue;
+                }
+                seen.insert(key, nodes.len() as u32);
+                frontier.push(nodes.len() as u32);
+                nodes.push(Node { tr: t, model: m, parent: u32::MAX, op: ri as u32, depth: 0, key });
+            }
+        }
+    }
+    let n_roots = nodes.len();
+
+    // ---- level-synchronous parallel BFS
+    let mut depth = 0u32;
+    let mut max_depth = 0u32;
+    let stop = AtomicBool::new(false);
+    let enough = AtomicBool::new(false);
+    let nops_nonjoint = table.n_ops(pass.maxlen_nonjoint);
+    let nops_joint = table.n_ops(pass.maxlen_joint);
+    while !frontier.is_empty() {
+        if found.lock().unwrap().len() >= MAX_KINDS {
+            cap_hit = Some(format!("stopped after {} distinct violation kinds", MAX_KINDS));
+            break;
+        }
+        shuffle(&mut frontier, seed);
+        let next_i = AtomicUsize::new(0);
+        // per thread: candidate successors (key -> smallest (parent, op)), stats, transition count
+        let results: Vec<(HashMap<u128, (u32, u32)>, Stats, u64)> = std::thread::scope(|sc| {
+            let hs: Vec<_> = (0..threads)
+                .map(|_| {
+                    sc.spawn(|| {
+                        let mut cx = Cx::new(&u);
+                        let mut cand: HashMap<u128, (u32, u32)> = HashMap::new();
+                        let mut ntr = 0u64;
+                        loop {
+                            let i = next_i.fetch_add(1, Ordering::Relaxed);
+                            if i >= frontier.len() || stop.load(Ordering::Relaxed) || enough.load(Ordering::Relaxed) {
+                                break;
+                            }
+                            if found.lock().unwrap().len() >= MAX_KINDS {
+                                enough.store(true, Ordering::Relaxed);
+                                break;
+                            }
+                            if t0.elapsed().as_secs_f64() > budget_s {
+                                stop.store(true, Ordering::Relaxed);
+                                break;
+                            }
+                            let ni = frontier[i];
+                            let node = &nodes[ni as usize];
+                            let snap = node.tr.clone();
+                            let old = impl_conf(&snap);
+                            let nops = if old.joint() { nops_joint } else { nops_nonjoint };
+                            for oi in 0..nops {
+                                ntr += 1;
+                                let out = step(&mut cx, &node.tr, &snap, &old, &node.model, table.op(oi), table.ccs(oi));
+                                for (k, d) in out.viols {
+                                    let ops = path_json(&u, &nodes, &roots, &table, ni, Some(oi as u32), rot);
+                                    record(found, k, Found { depth: depth + 1, parent: ni, op: oi as u32, detail: d, ops });
+                                }
+                                if let Some((t2, m2)) = out.next {
+                                    let key = pair_key(&t2, &m2);
+                                    if !seen.contains_key(&key) {
+                                        let e = cand.entry(key).or_insert((ni, oi as u32));
+                                        if (ni, oi as u32) < *e {
+                                            *e = (ni, oi as u32);
+                                        }
+                                    }
+                                }
+                            }
+                        }
+                        (cand, cx.st, ntr)
+                    })
+                })
+                .collect();
+            hs.into_iter().map(|h| h.join().expect("worker thread")).collect()
+        });
+        let mut merged: HashMap<u128, (u32, u32)> = HashMap::new();
+        for (cand, st, ntr) in results {
+            stats.merge(&st);
+            transitions += ntr;
+            for (k, v) in cand {
+                let e = merged.entry(k).or_insert(v);
+                if v < *e {
+                    *e = v;
+                }
+            }
+        }
+        if stop.load(Ordering::Relaxed) {
+            cap_hit = Some(format!("time budget {:.0}s exhausted at depth {}", budget_s, depth));
+            break;
+        }
+        if enough.load(Ordering::Relaxed) {
+            cap_hit = Some(format!("stopped after {} distinct violation kinds", MAX_KINDS));
+            break;
+        }
+        let mut adopt: Vec<(u32, u32, u128)> = merged.into_iter().map(|(k, (p, o))| (p, o, k)).collect();
+        adopt.sort();
+        depth += 1;
+        let mut next_frontier = vec![];
+        for (p, o, key) in adopt {
+            // re-execute the operation on the parent (determinism check included)
+            let (t2, m2) = {
+                let node = &nodes[p as usize];
+                let snap = node.tr.clone();
+                let old = impl_conf(&snap);
+                let mut scratch = Cx::new(&u);
+                std::mem::swap(&mut scratch.qmemo, &mut mcx.qmemo);
+                let out = step(&mut scratch, &node.tr, &snap, &old, &node.model, table.op(o as usize), table.ccs(o as usize));
+                std::mem::swap(&mut scratch.qmemo, &mut mcx.qmemo);
+                match out.next {
+                    Some(x) if pair_key(&x.0, &x.1) == key => x,
+                    _ => {
+                        record(
+                            found,
+                            "nondeterministic-reexecution".into(),
+                            Found { depth, parent: p, op: o, detail: "re-executing an operation on the same state gave a different result".into(), ops: path_json(&u, &nodes, &roots, &table, p, Some(o), rot) },
+                        );
+                        continue;
+                    }
+                }
+            };
+            let vs = state_check(&mut mcx, &t2, &m2);
+            if !vs.is_empty() {
+                let ops = path_json(&u, &nodes, &roots, &table, p, Some(o), rot);
+                for (k, d) in vs {
+                    record(found, k, Found { depth, parent: p, op: o, detail: d, ops: ops.clone() });
+                }
+                continue;
+            }
+            if nodes.len() >= state_cap {
+                cap_hit = Some(format!("state cap {}", state_cap));
+                break;
+            }
+            seen.insert(key, nodes.len() as u32);
+            next_frontier.push(nodes.len() as u32);
+            nodes.push(Node { tr: t2, model: m2, parent: p, op: o, depth, key });
+            max_depth = depth;
+        }
+        if cap_hit.is_some() {
+            break;
+        }
+        frontier = next_frontier;
+    }
+    stats.merge(&mcx.st);
+
+    // ---- determinism / replay self-check: operation paths (BFS-tree paths of the deepest states
+    // and pseudo-random walks of up to 5 successful operations from pseudo-random states) are
+    // written out as JSON, re-executed from their root through the replay entry point with all
+    // checks, and the final pair key is compared.
+    let mut validated = 0u64;
+    let mut samples: Vec<Value> = vec![];
+    if !nodes.is_empty() && found.lock().unwrap().is_empty() {
+        let mut x = seed.wrapping_mul(0x2545f4914f6cdd1d) ^ 0x9e3779b97f4a7c15;
+        let mut cx = Cx::new(&u);
+        let mut paths: Vec<(Value, u128)> = vec![];
+        let mut by_depth: Vec<u32> = (0..nodes.len() as u32).collect();
+        by_depth.sort_by_key(|i| std::cmp::Reverse(nodes[*i as usize].depth));
+        for at in by_depth.iter().take(60) {
+            paths.push((path_json(&u, &nodes, &roots, &table, *at, None, rot), nodes[*at as usize].key));
+        }
+        for _ in 0..340 {
+            let at = (xorshift(&mut x) % nodes.len() as u64) as u32;
+            let mut j = path_json(&u, &nodes, &roots, &table, at, None, rot);
+            let (mut t, mut m) = (nodes[at as usize].tr.clone(), nodes[at as usize].model.clone());
+            let want = 1 + xorshift(&mut x) % 5;
+            let mut taken = 0;
+            for _ in 0..400 {
+                if taken == want {
+                    break;
+                }
+                let snap = t.clone();
+                let old = impl_conf(&snap);
+                // from a joint configuration leave_joint is the only operation that can succeed
+                let oi = if old.joint() { 0 } else { (xorshift(&mut x) % nops_nonjoint as u64) as usize };
+                let out = step(&mut cx, &t, &snap, &old, &m, table.op(oi), table.ccs(oi));
+                if let Some((t2, m2)) = out.next {
+                    t = t2;
+                    m = m2;
+                    j["steps"].as_array_mut().unwrap().push(table.op(oi).to_json());
+                    taken += 1;
+                }
+            }
+            paths.push((j, pair_key(&t, &m)));
+        }
+        let mut cx2 = Cx::new(&u);
+        for (n, (j, key)) in paths.iter().enumerate() {
+            // through text, as a replay file would be
+            let j2: Value = serde_json::from_str(&j.to_string()).unwrap_or(Value::Null);
+            match run_path(&mut cx2, &j2) {
+                Ok((Some((t, m)), vs)) if vs.is_empty() && pair_key(&t, &m) == *key => validated += 1,
+                _ => record(
+                    found,
+                    "nondeterministic-replay".into(),
+                    Found { depth: 0, parent: 0, op: 0, detail: "re-executing a recorded path from its root gave a different final state".into(), ops: j.clone() },
+                ),
+            }
+            let nsteps = j["steps"].as_array().map(|a| a.len()).unwrap_or(0);
+            if samples.len() < 3 && (nsteps >= 4 || n + 3 >= paths.len()) {
+                samples.push(j.clone());
+            }
+        }
+    }
+
+    let info = json!({
+        "id_universe": pass.univ,
+        "change_ids": u.change_ids(),
+        "max_change_list_len_from_nonjoint": pass.maxlen_nonjoint,
+        "max_change_list_len_from_joint": pass.maxlen_joint,
+        "ops_per_nonjoint_state": nops_nonjoint,
+        "ops_per_joint_state": nops_joint,
+        "quorum_subsets": u.nsub,
+        "roots": n_roots,
+        "states": nodes.len(),
+        "transitions": transitions,
+        "max_depth": max_depth,
+    });
+    PassResult { states: nodes.len() as u64, transitions, validated, cap_hit, samples, stats, info }
+}
+
+pub fn run(tier: &str, seed: u64, budget_s: f64, threads: usize) -> CompResult {
+    let t0 = Instant::now();
+    let cfg = tier_cfg(tier);
+    let threads = threads.max(1);
+    let mut stats = Stats::new();
+    let found: Mutex<BTreeMap<String, Found>> = Mutex::new(BTreeMap::new());
+    let mut cap_hit: Option<String> = None;
+    let mut transitions: u64 = 0;
+    let mut states: u64 = 0;
+    let mut validated: u64 = 0;
+    let mut samples: Vec<Value> = vec![];
+    let mut infos: Vec<Value> = vec![];
+
+    // ---- stateless part: ConfChangeV2 classification
+    {
+        let u = Univ::new(&cfg.passes[0].univ);
+        let ct = OpTable::new(&u, cfg.classify_len);
+        for t in [ConfChangeTransition::Auto, ConfChangeTransition::Implicit, ConfChangeTransition::Explicit] {
+            for l in &ct.lists {
+                for ctx in [false, true] {
+                    transitions += 1;
+                    for (k, d) in classify_one(&mut stats, t, l, ctx) {
+                        record(&found, k, Found { depth: 0, parent: 0, op: 0, detail: d, ops: classify_ops(t, l, ctx) });
+                    }
+                }
+            }
+        }
+    }
+
+    // ---- exploration passes
+    for pass in &cfg.passes {
+        if cap_hit.is_some() {
+            break;
+        }
+        let r = run_pass(pass, cfg.state_cap, seed, t0, budget_s, threads, &found);
+        states += r.states;
+        transitions += r.transitions;
+        validated += r.validated;
+        stats.merge(&r.stats);
+        cap_hit = r.cap_hit;
+        for s in r.samples {
+            if samples.len() < 3 {
+                samples.push(s);
+            }
+        }
+        infos.push(r.info);
+    }
+
+    // ---- result
+    let mut sj = serde_json::Map::new();
+    for (i, n) in STAT_NAMES.iter().enumerate() {
+        sj.insert(n.to_string(), json!(stats.0[i]));
+    }
+    sj.insert("passes".into(), json!(infos));
+    let must = [
+        "ok_simple",
+        "ok_enter_joint",
+        "ok_leave_joint",
+        "err_simple_in_joint",
+        "err_more_than_one_voter",
+        "err_removed_all_voters",
+        "err_already_joint",
+        "err_zero_voter_joint",
+        "err_not_joint",
+        "err_atomicity_checked",
+        "simple_voter_delta_0",
+        "simple_voter_delta_1",
+        "quorum_steps_checked",
+        "quorum_pairs_checked",
+        "has_quorum_evaluations",
+        "restores_checked",
+        "states_joint",
+        "states_learners_next_nonempty",
+        "states_auto_leave",
+        "states_with_learners",
+        "id0_changes_in_ok_lists",
+        "unknown_id_became_member",
+        "classification_cases",
+        "classification_enter_joint_some",
+        "classification_leave_joint_true",
+    ];
+    let violations: Vec<(String, String, Value)> = found
+        .into_inner()
+        .unwrap()
+        .into_iter()
+        .take(MAX_KINDS)
+        .map(|(k, f)| (k, f.detail, f.ops))
+        .collect();
+    // a broken reference-model dispatcher is a machinery failure, not a verdict
+    let model_ok = stats.get("refconf_apply_v2_mismatch") == 0;
+    let nonvacuous = if !violations.is_empty() || cap_hit.is_some() {
+        // counters of an aborted run say nothing about vacuity
+        model_ok
+    } else {
+        model_ok && must.iter().all(|n| stats.get(n) > 0)
+    };
+    CompResult {
+        engine: ENGINE.to_string(),
+        states,
+        transitions,
+        validated,
+        exhaustive: cap_hit.is_none() && violations.is_empty(),
+        cap_hit,
+        samples,
+        stats: Value::Object(sj),
+        violations,
+        nonvacuous,
+        wall_s: t0.elapsed().as_secs_f64(),
+    }
+}
+
+/// Executes {"root":…, "rot":…, "steps":[…]} with all checks. Returns the final pair (None if a
+/// violation closed the path) and every violation seen on the way. Err = malformed input.
+#[allow(clippy::type_complexity)]
+fn run_path(cx: &mut Cx, j: &Value) -> Result<(Option<(ProgressTracker, RefConf)>, Vec<Viol>), String> {
+    run_path_v(cx, j, false)
+}
+
+#[allow(clippy::type_complexity)]
+fn run_path_v(cx: &mut Cx, j: &Value, verbose: bool) -> Result<(Option<(ProgressTracker, RefConf)>, Vec<Viol>), String> {
+    let root = match j.get("root") {
+        None => return Err("no root".into()),
+        Some(Value::Null) => None,
+        Some(v) => Some(conf_from_json(v).ok_or("bad root")?),
+    };
+    let rot = j.get("rot").and_then(|v| v.as_u64()).unwrap_or(0) as usize;
+    let steps = j.get("steps").and_then(|v| v.as_array()).ok_or("no steps")?;
+    let mut viols = vec![];
+    let (mut t, mut m) = match build_root(cx, &root, rot) {
+        Ok(x) => x,
+        Err(vs) => return Ok((None, vs)),
+    };
+    viols.extend(state_check(cx, &t, &m));
+    if !viols.is_empty() {
+        return Ok((None, viols));
+    }
+    for s in steps {
+        let op = Op::from_json(s).ok_or_else(|| format!("bad step {}", s))?;
+        let ccs: Vec<ConfChangeSingle> = match &op {
+            Op::Simple(l) | Op::Enter(_, l) => l.iter().map(ch_to_single).collect(),
+            Op::Leave => vec![],
+        };
+        let snap = t.clone();
+        let old = impl_conf(&snap);
+        let out = step(cx, &t, &snap, &old, &m, &op, &ccs);
+        if verbose {
+            match &out.next {
+                Some((t2, _)) => println!("step: {} -> Ok {} progress={:?}", s, conf_str(&impl_conf(t2)), prog_ids(t2)),
+                None if out.viols.is_empty() => println!("step: {} -> Err (rejected, tracker unchanged)", s),
+                None => println!("step: {} -> VIOLATION", s),
+            }
+        }
+        viols.extend(out.viols);
+        match out.next {
+            None => return Ok((None, viols)),
+            Some((t2, m2)) => {
+                t = t2;
+                m = m2;
+            }
+        }
+        viols.extend(state_check(cx, &t, &m));
+        if !viols.is_empty() {
+            return Ok((None, viols));
+        }
+    }
+    Ok((Some((t, m)), viols))
+}
+
+pub fn replay(j: &Value) -> i32 {
+    let kind = j.get("kind").and_then(|v| v.as_str()).unwrap_or("");
+    let Some(ops) = j.get("ops") else {
+        eprintln!("confchange replay: no ops");
+        return 2;
+    };
+    let viols: Vec<Viol> = if let Some(c) = ops.get("classify") {
+        let t = c.get("transition").and_then(|v| v.as_str()).and_then(tr_from);
+        let l: Option<Vec<Ch>> = c
+            .get("changes")
+            .and_then(|v| v.as_array())
+            .and_then(|a| a.iter().map(|v| v.as_str().and_then(parse_ch)).collect());
+        let ctx = c.get("context").and_then(|v| v.as_bool()).unwrap_or(false);
+        let (Some(t), Some(l)) = (t, l) else {
+            eprintln!("confchange replay: bad classify input");
+            return 2;
+        };
+        println!("ConfChangeV2 transition={} changes={:?} context={}", tr_name(t), l.iter().map(ch_str).collect::<Vec<_>>(), ctx);
+        classify_one(&mut Stats::new(), t, &l, ctx)
+    } else {
+        let ids: Vec<u64> = match ops.get("universe").and_then(|v| v.as_array()) {
+            Some(a) => a.iter().filter_map(|v| v.as_u64()).collect(),
+            None => vec![1, 2, 3, 4, 9],
+        };
+        if ids.is_empty() || ids.len() > 6 || ids.contains(&0) {
+            eprintln!("confchange replay: bad universe");
+            return 2;
+        }
+        let u = Univ::new(&ids);
+        let mut cx = Cx::new(&u);
+        println!("root: {}", ops.get("root").map(|r| r.to_string()).unwrap_or_default());
+        match run_path_v(&mut cx, ops, true) {
+            Ok((fin, v)) => {
+                if let Some((t, _)) = fin {
+                    println!("final: {} progress={:?}", conf_str(&impl_conf(&t)), prog_ids(&t));
+                }
+                v
+            }
+            Err(e) => {
+                eprintln!("confchange replay: {}", e);
+                return 2;
+            }
+        }
+    };
+    for (k, d) in &viols {
+        println!("violation [{}] {}", k, d);
+    }
+    if viols.iter().any(|(k, _)| k == kind) || (kind.is_empty() && !viols.is_empty()) {
+        1
+    } else {
+        println!("no violation of kind [{}] on this replay", kind);
+        0
+    }
 }
